@@ -277,7 +277,7 @@ def run(chk: core.Check):
 
     # ---- T3: random histories on parsed entries ----------------------------
     ncases = 60 if chk.tier == "quick" else 600
-    pool = ["a", "A", "b", "B", "c", "title", "Title", "year"]
+    pool = ["a", "A", "b", "B", "c", "title", "Title", "year", "ß", "ss", "SS", "ſ"]
     vals = ["1", "2", "x y", "{z}", ""]
     cases = []
     for cid in range(ncases):
